@@ -608,6 +608,16 @@ class _RecordRun:
     def _shape_ok(self, t, extra=0):
         return self.m.init and tuple(t.shape[: t.ndim - extra]) == self.m.shape
 
+    def _scribble(self, obs):
+        """aliasing fault: the caller reuses the tensor it handed to the record (every third write); the record keeps what it was given"""
+        if self.writes % 3 != 1:
+            return
+        if obs.dtype == torch.bool:
+            obs.copy_(~obs)
+        else:
+            obs.add_(3)
+        self.ctx.fault("caller_overwrites_written_tensor")
+
     def op_push(self, op, via_latest=False):
         ctx, rt, m = self.ctx, self.rt, self.m
         obs = self._obs(op["obs"])
@@ -635,6 +645,7 @@ class _RecordRun:
         self.writes += 1
         ctx.nontrivial = True
         ctx.log("push", obs, inplace)
+        self._scribble(obs)
         if m.n == 1:
             ctx.probe("N==1")
         self.check_state("push", allow_dtype_change=False)
@@ -699,6 +710,7 @@ class _RecordRun:
         self.writes += 1
         ctx.nontrivial = True
         ctx.log("write", obs, o, inplace)
+        self._scribble(obs)
         self.check_state("write")
 
     def op_readrange(self, op):
@@ -767,6 +779,7 @@ class _RecordRun:
         self.writes += L
         ctx.nontrivial = True
         ctx.log("writerange", obs, o, fwd, inplace)
+        self._scribble(obs)
         if L == m.n:
             ctx.probe("writerange_length==N")
         if not tensor_form:
